@@ -795,7 +795,7 @@ def check(run, mods, wd, rnd) -> dict:
     seen = set()
     for rid in RULES:
         fam = FAMILIES[rid](tier, det)
-        nrand = (40 if quick else 1500)
+        nrand = (40 if quick else 600)
         progs = [(p, False) for p in fam] + [(rand_prog(rid, rnd), True) for _ in range(nrand)]
         for p, seeded in progs:
             try:
@@ -845,7 +845,7 @@ def check(run, mods, wd, rnd) -> dict:
                 n_outside += 1
                 continue
             h = sum(map(ord, s))
-            for j in range(2 if quick else 4):
+            for j in range(2 if quick else 3):
                 env = VALUATIONS[(h + j) % len(VALUATIONS)]
                 (status, vals), log = T.run_prog(s, env)
                 names = final_names(prog, env)
